@@ -56,7 +56,20 @@ def gen_hard(rng, seq):
                 ch.add(seq[loc[0]:loc[1]] if loc[2] != -1 else rcs(seq[loc[0]:loc[1]]))
             cs.append(("EnforceChoice", kw(choices=tuple(sorted(ch)), location=loc)))
         elif r < 0.9:
-            cs.append(("EnforceChanges", kw(location=rloc(rng, n, strands=(0, 1)))))
+            r3 = rng.random()
+            if r3 < 0.4:
+                cs.append(("EnforceChanges", kw(location=rloc(rng, n, strands=(0, 1)))))
+            elif r3 < 0.6:
+                ix = rng.sample(range(n), rng.randint(1, min(4, n)))
+                cs.append(("EnforceChanges", kw(indices=tuple(ix))))
+            elif r3 < 0.8:
+                # a stored reference that is not the sequence (what the copies made for circular / local
+                # problems carry): the nucleotides to avoid are the reference's
+                loc = rloc(rng, n, strands=(0, 1))
+                cs.append(("EnforceChanges", kw(location=loc, reference=rdna(rng, loc[1] - loc[0]))))
+            else:
+                ix = rng.sample(range(n), rng.randint(1, min(4, n)))
+                cs.append(("EnforceChanges", kw(indices=tuple(ix), reference=rdna(rng, len(ix)))))
         else:
             loc = rloc(rng, n, strands=(1, -1), mult=3, minlen=3)
             if rng.random() < 0.5:
@@ -144,7 +157,10 @@ def impl_case(case):
     unsolvable = any(len(c.variants) == 0 for c in ms.choices_list)
     terms = [(spec_to_coq(sp), getattr(sp, "max_edits_percent", None) is not None) for sp in sps]
     res = dict(choices=choices, unsolvable=unsolvable, terms=terms,
-               enforced=[bool(sp.enforced_by_nucleotide_restrictions) for sp in sps])
+               # (EnforceChanges given by indices restricts the nucleotides like the location form, but the copy made
+               # at initialisation does not carry the flag: it counts among the restricting constraints all the same)
+               enforced=[bool(sp.enforced_by_nucleotide_restrictions)
+                         or (type(sp).__name__ == "EnforceChanges" and sp.minimum_percent == 100) for sp in sps])
     # construction through the real problem class: error class and initial sequence
     import dnachisel as dc
     try:
